@@ -204,9 +204,19 @@ class Crate:
                     except Unsupported as u:
                         self.rejected_items['impl at %s:%s' % (os.path.relpath(path, self.root), it.line)] = str(u)
 
+    BUILTIN_CONSTS = {('u8', 'BITS'): 8, ('u16', 'BITS'): 16, ('u32', 'BITS'): 32, ('u64', 'BITS'): 64, ('usize', 'BITS'): 64,
+                      ('u8', 'MAX'): 255, ('u16', 'MAX'): 65535, ('u32', 'MAX'): 2 ** 32 - 1, ('u64', 'MAX'): 2 ** 64 - 1,
+                      ('u8', 'MIN'): 0, ('u16', 'MIN'): 0, ('u32', 'MIN'): 0, ('u64', 'MIN'): 0}
+
     def const_eval(self, e, path):
         if e.kind == 'int':
             return e.value
+        if e.kind == 'path' and len(e.segs) == 2 and (e.segs[0], e.segs[1]) in self.BUILTIN_CONSTS:
+            return self.BUILTIN_CONSTS[(e.segs[0], e.segs[1])]
+        if e.kind == 'path' and len(e.segs) >= 2 and (e.segs[-2] + '_' + e.segs[-1]) in self.consts:
+            return self.consts[e.segs[-2] + '_' + e.segs[-1]][1]
+        if e.kind == 'path' and len(e.segs) == 2 and e.segs[0] == 'Self' and getattr(self, '_const_owner', None) and (self._const_owner + '_' + e.segs[1]) in self.consts:
+            return self.consts[self._const_owner + '_' + e.segs[1]][1]
         if e.kind == 'char':
             return e.value
         if e.kind == 'paren':
@@ -284,6 +294,11 @@ class Crate:
             if trait not in self.traits and trait not in IGNORED_TRAITS:
                 raise Unsupported("impl of unknown trait `%s`" % trait, path, it.line)
         self.impls.append((trait, self_ty, path, it.line, it.attrs))
+        # associated constants become crate constants named Type_NAME
+        for cn in getattr(it, 'consts', []):
+            self._const_owner = base[1]
+            cty = self.conv_type(cn.ty, tparams, path, self_ty)
+            self.consts[base[1] + '_' + cn.name] = (cty, self.const_eval(cn.value, path), key)
         bounds = self.bounds_of(it.params, path, it.line)
         for f in it.fns:
             try:
